@@ -27,8 +27,13 @@ pub fn run_c04(args: &Args) -> i32 {
     }
     let mut rng = Rng::derive(seed, 0x0404, i);
     let case = wtr::gen_case(&mut rng, max_ev);
-    let tag = json!({"seed": seed, "stream": 0x0404, "index": i});
+    let pad = crate::wire::choose_pad_garbage(seed, 0x0404, i);
+    if pad != 0 {
+      acc.count("cases_with_random_bits_in_number_set_padding", 1);
+    }
+    let tag = json!({"seed": seed, "stream": 0x0404, "index": i, "number_set_padding_bits": pad});
     let out = wtr::run_case(&case, acc, &tag);
+    crate::wire::set_pad_garbage(0);
     acc.evaluations += 1;
     acc.count("datagrams_captured", out.datagrams);
     acc.count("heartbeats_checked", out.heartbeats);
